@@ -46,6 +46,13 @@ CHECKS["C11"] = dict(design="4 C11", technique="TLA+ spec (CtxPool: multi-proces
 CHECKS["C20"] = dict(design="4 C20", technique="TLA+ spec (RefCount, holders as processes) model-checked by TLC; every behaviour that releases the last reference replayed on a real mmap-opened file with /proc inspection; concurrent holders under the race detector",
     note="Trusted: TLC; /proc/self/maps and /proc/self/fd; Go's race detector for the unlocked-counter clause on the schedules that ran. Holders use the API balanced (only while owning a reference).",
     text="RefCount.tla models refs / mapping / descriptor with AddRef, DecRef, Close, read and hand-over between 2 (quick) / 3 (thorough) holders; TLC checks RefSafe (mapped and descriptor open iff refs > 0, unmapped at most once, last release without error, every owner finds the mapping) over all interleavings up to 6 / 8 operations and emits every behaviour that ends with the last release. Each is replayed on a fresh copy of a real segment file: after every operation /proc/self/maps and /proc/self/fd are inspected (exactly one mapping and descriptor while references remain, none afterwards), a complete read is compared with the tables TLC emitted, and the last release must return nil. Closing an in-memory segment must return nil. Concurrent holders and readers run under -race.")
+OUT_NOTE = "Trusted: TLC; RLIMIT_FSIZE fault injection (partial write then EFBIG at the exact offset); the verif poll hook; fsync/close failures cannot be injected. The footer is taken to be 8 checked writes of 5x8+3x4 bytes (documented layout)."
+CHECKS["C17"] = dict(design="4 C17", technique="TLA+ spec (OutFile: buffered writer with sticky error, checked/unchecked writes, flush/sync/close/cleanup) model-checked by TLC; real operations run under write faults at byte offsets, every outcome validated by TLC against the model run on the recorded program (TraceOut)",
+    note=OUT_NOTE,
+    text="OutFile.tla is checked exhaustively over all small programs x buffer capacities x fault offsets (OkMeansComplete, ErrMeansNoFile, FaultSurfaces: a fault inside the output is reported whether or not the write that hits it is checked). For real Persist, WriteTo and Merge runs the harness records the fault-free step sequence (merge writes via the statistics callback) as the program, then injects a write fault at every byte offset (outputs up to 700 bytes quick / 4000 thorough; beyond that every flush boundary +-1, the footer, first/last bytes and 64 seeded offsets) with merge buffers of 16 / 64 bytes / 1 MiB; TLC runs the same deterministic step function on the recorded program and the injected plan and compares result, file existence and - on success - completeness (length, CRC-32, re-open, count).")
+CHECKS["C18"] = dict(design="4 C18", technique="TLA+ spec (OutFile with poll steps) model-checked by TLC; real merges cancelled at every poll (verif hook), before the call, from write callbacks and asynchronously; outcomes validated by TLC (TraceOut)",
+    note=OUT_NOTE,
+    text="Same model with polls of the close channel (CancelSurfaces). Real merges (ordinary, synonym, rich, and without survivors) are cancelled at the j-th poll for every j the fault-free run performs (and one beyond), with the channel closed before the call, from inside the i-th write callback (validated against that run's own recorded step sequence, since the section order varies), by another goroutine after random delays (TLC accepts exactly: closed error and no file, or success with a complete file), and combined with a write fault. A merge program must begin with a poll.")
 HOOK_COMMITS = ["f76ac2a"]
 
 NA = {}
